@@ -537,6 +537,15 @@ func (c *FnCtx) unbox(id Term, t types.Type) SV {
 		f := c.vc.Declare(name, []Sort{SInt}, s)
 		return Sc{Term{fmt.Sprintf("(%s %s)", f, id.S), s}}
 	}
+	if _, ok := t.Underlying().(*types.Slice); ok {
+		// a slice held in an interface value: its header is a function of the boxed value's
+		// identity (two unboxings of the same value give the same slice)
+		k := typeKey(t)
+		sl := Sl{c.uf("unbox$arr$"+k, SInt, id), c.uf("unbox$off$"+k, SInt, id), c.uf("unbox$len$"+k, SInt, id), c.uf("unbox$cap$"+k, SInt, id)}
+		c.vc.Assert(And(App(SBool, "<=", IntLit(0), sl.Off), App(SBool, "<=", IntLit(0), sl.Len), App(SBool, "<=", sl.Len, sl.Cap), App(SBool, ">=", sl.Arr, IntLit(0)),
+			Implies(Eq(sl.Arr, IntLit(0)), And(Eq(sl.Len, IntLit(0)), Eq(sl.Cap, IntLit(0)), Eq(sl.Off, IntLit(0))))))
+		return sl
+	}
 	return c.freshValue(t, "unboxed")
 }
 
